@@ -119,8 +119,32 @@ def run_history(history, modes, value, nv: bool, templated: bool, chooser) -> Li
                 sub.instantiate(conn.app_id, {"t": value, "u": (value * 3 + 1) % 256})
                 conn.commit_subroutine(sub)
 
+        held = None               # "precompile-queue": compiled, to be committed while the NEXT segment's operations are pending
+
+        def commit_held():
+            nonlocal held
+            if held is not None:
+                held.instantiate(conn.app_id, {"t": value, "u": (value * 3 + 1) % 256})
+                conn.commit_subroutine(held)
+                held = None
+
         for si, (body, mode) in enumerate(zip(history, modes)):
             env["segment"] = si
+            if templated and mode == "precompile-queue":
+                commit_held()
+                build_body(body, env, lambda n: Template(n))
+                held = conn.compile()
+                obs.append(None)
+                continue
+            if held is not None and not (templated and mode in ("precompile", "precompile-late")):
+                # the next segment is queued (not compiled) while the compiled one is instantiated and committed
+                commit_late()
+                build_body(body, env, lambda n: value if n == "t" else (value * 3 + 1) % 256)
+                commit_held()
+                conn.flush()
+                obs.append(observe(env) if not late else None)
+                continue
+            commit_held()
             if templated and mode in ("precompile", "precompile-late"):
                 build_body(body, env, lambda n: Template(n))
                 sub = conn.compile()
@@ -137,6 +161,7 @@ def run_history(history, modes, value, nv: bool, templated: bool, chooser) -> Li
                 conn.flush()
             # observations are comparable only when everything built so far has been executed
             obs.append(observe(env) if not late else None)
+        commit_held()
         commit_late()
         env["segment"] = len(history)
         conn.flush()          # the closing flush of conn.close(), observed before the application is stopped
@@ -220,6 +245,9 @@ def histories(tier: str):
                 if all(m == "flush" for m in modes):
                     continue
                 yield list(hist), list(modes)
+            if n == 2:
+                # compiled first, committed while the second segment's operations are still queued
+                yield list(hist), ["precompile-queue", "flush"]
     if tier == "quick":
         # a few length-3 histories (array created early, pre-compiled middle, flushed end)
         for hist in (("rx_new", "ry_slot", "lit_new"), ("ry_slot", "rz_reg", "rx_new"), ("p_rot", "two_tpl", "ry_slot")):
